@@ -174,23 +174,17 @@ def cbcsLoop (hdr : Buf) : Nat → Nat → Nat → Py Nat
 
 def calcBodyContentSize (hdr : Buf) : Py Nat := cbcsLoop hdr hdr.size 0 0
 
-/-- `calculate_expected_overflow(overflow_byte_size, page_size)`: the loop subtracts
-`page_size - 4` until the remainder is ≤ 0.  `ps ≤ 4` never terminates in Python; the model
-returns `none` for it (callers never pass it: page sizes are ≥ 512). -/
-def ceoLoop (ps : Nat) : Nat → Nat → Nat → Nat → Option (Nat × Nat)
-  | 0, _, _, _ => none
-  | fuel+1, n, pages, _last =>
-    -- invariant: n > 0 on entry
-    let pages' := pages + 1
-    let last' := n
-    if n + Generated.OVERFLOW_HEADER_LENGTH > ps then
-      ceoLoop ps fuel (n + Generated.OVERFLOW_HEADER_LENGTH - ps) pages' last'
-    else some (pages', last')
-
+/-- `calculate_expected_overflow(overflow_byte_size, page_size)` in closed form (fix: commit):
+`pages = ceil(n / (page_size - 4))`, `last = n - (pages - 1)(page_size - 4)`.  `ps ≤ 4` divides by
+zero or goes negative in Python; the model returns `none` for it (callers never pass it: page
+sizes are ≥ 512). -/
 def calcExpectedOverflow (n : Int) (ps : Nat) : Option (Nat × Int) :=
   if n > 0 then
     if ps ≤ Generated.OVERFLOW_HEADER_LENGTH then none
-    else (ceoLoop ps n.toNat n.toNat 0 n.toNat).map fun (p, l) => (p, (l : Int))
+    else
+      let c := ps - Generated.OVERFLOW_HEADER_LENGTH
+      let pages := (n.toNat + c - 1) / c
+      some (pages, n - ((pages - 1) * c : Nat))
   else some (0, n)
 
 end SqliteDissect.Model
